@@ -8,8 +8,12 @@ explicit `Frame` on `State.stack`, and `step` executes one small step of the inn
 function is a script (`Fn.script`): a list of actions followed by an outcome (return a value, return its
 argument, raise).  Core Lean only.
 
-Ghost data (does not influence behaviour): `Cb.rid`/`Cb.br` (which `then()` call created the callback and on
-which of the two lists it was put), `State.regs` (promise each `then()` call was made on), `Event.invoke`.
+Ghost data (does not influence behaviour; used only to state the theorems): `Cb.rid`/`Cb.br` (which `then()` call
+created the callback and on which of the two lists it was put), `State.regs` (promise each `then()` call was
+made on), `State.during` (was that promise in the middle of a notification with callbacks still waiting),
+`Prom.origin` (who created the promise), `Coll.rids` (the `then()` calls made by the loop of `Promise.all` /
+`wait_promises` so far), all `Event`s other than `call`, and the distinction between `Fn.bind` (a bound method passed by
+the user) and `Fn.adopt` (the same bound method passed by `wrapper` when it adopts a returned promise).
 -/
 namespace RedunModel.Promise
 
@@ -44,8 +48,10 @@ mutual
   inductive Fn where
     /-- a user function: log `id`, perform `acts`, end with `out` -/
     | script (id : Nat) (acts : List Act) (out : Outcome)
-    /-- the bound method `p.do_resolve` / `p.do_reject` (returns its argument) -/
+    /-- the bound method `p.do_resolve` / `p.do_reject` (returns its argument), passed by user code -/
     | bind (b : Br) (p : Nat)
+    /-- the same bound method, passed by `wrapper` itself: `result2.then(promise.do_resolve, promise.do_reject)` -/
+    | adopt (b : Br) (p : Nat)
     /-- closures of `Promise.all`: `make_then(i)` and `fail`; of `wait_promises`: `done` (all return None) -/
     | allThen (a : Nat) (i : Nat)
     | allFail (a : Nat)
@@ -72,22 +78,33 @@ structure Cb where
   br : Br
   kind : CbKind
 
+/-- ghost: which code created a promise -/
+inductive Origin where
+  | user                 -- `Promise()` / `Promise(func)` written by the user
+  | chained              -- the promise created and returned by `then`
+  | coll (a : Nat)       -- the promise returned by the `a`-th `Promise.all` / `wait_promises` call
+  deriving DecidableEq, Repr
+
 structure Prom where
   st : Status := .pending
   resolvers : List Cb := []
   rejectors : List Cb := []
+  origin : Origin := .user
 
-/-- closure state of one `Promise.all` call -/
-structure AllRec where
-  target : Nat
-  results : List Val
-  numDone : Nat
+inductive Mode where
+  | all | wait
+  deriving DecidableEq, Repr
 
-/-- closure state of one `wait_promises` call -/
-structure WaitRec where
+/-- Closure state of one `Promise.all` call (`results`, `num_done`; `len(results) = len(subpromises)`) or of one
+`wait_promises` call (`subpromises`, `num_done`; `results` unused). -/
+structure Coll where
+  mode : Mode
   target : Nat
   subs : List Nat
+  results : List Val
   numDone : Nat
+  /-- ghost: the `then()` call numbers of the registrations made by the loop so far -/
+  rids : List Nat := []
 
 /-- What happens when a script's statements are exhausted. -/
 inductive Kont where
@@ -102,10 +119,9 @@ inductive Frame where
   | script (arg : Val) (acts : List Act) (k : Kont)
   /-- `wrapper` after `func` returned `r`, chained promise `q` -/
   | finish (r : Val) (q : Nat)
-  /-- the `for i, subpromise in enumerate(subpromises)` loop of `Promise.all` -/
-  | allLoop (a : Nat) (i : Nat) (rest : List Nat)
-  /-- the `for subpromise in subpromises` loop of `wait_promises` -/
-  | waitLoop (w : Nat) (rest : List Nat)
+  /-- the `for i, subpromise in enumerate(subpromises)` loop of `Promise.all` / the `for subpromise in
+  subpromises` loop of `wait_promises` (collector `a`, next index `i`, inputs still to visit) -/
+  | loop (m : Mode) (a : Nat) (i : Nat) (rest : List Nat)
 
 inductive Event where
   /-- user function `id` called with `v` (observable) -/
@@ -114,19 +130,23 @@ inductive Event where
   | invoke (rid : Nat) (b : Br) (v : Val)
   /-- an action named a promise that does not exist (outside the domain of the check) -/
   | badRef
+  /-- ghost: user code called `q.do_resolve`/`q.do_reject` itself (a statement, or a bound method it passed) -/
+  | direct (q : Nat)
+  /-- ghost: `wrapper` adopted promise `r` (returned by a callback) for chained promise `q` with `then()` call `rid` -/
+  | adopt (q r rid : Nat)
 
 structure State where
   heap : List Prom := []
-  alls : List AllRec := []
-  waits : List WaitRec := []
+  colls : List Coll := []
   regs : List Nat := []
+  during : List Bool := []
   stack : List Frame := []
   /-- newest event first -/
   log : List Event := []
 
 def push (f : Frame) (s : State) : State := { s with stack := f :: s.stack }
 def emit (e : Event) (s : State) : State := { s with log := e :: s.log }
-def newProm (s : State) : State := { s with heap := s.heap ++ [{}] }
+def newProm (o : Origin) (s : State) : State := { s with heap := s.heap ++ [{ origin := o }] }
 
 /-- `do_resolve` / `do_reject` followed by the prologue of `_notify` (take the matching list, drop both). -/
 def settle (b : Br) (q : Nat) (v : Val) (s : State) : State :=
@@ -135,12 +155,18 @@ def settle (b : Br) (q : Nat) (v : Val) (s : State) : State :=
   | some pr =>
     match pr.st with
     | .pending =>
-      { s with heap := s.heap.set q { st := .settled b v, resolvers := [], rejectors := [] },
+      { s with heap := s.heap.set q { pr with st := .settled b v, resolvers := [], rejectors := [] },
                stack := .notify v (match b with | .res => pr.resolvers | .rej => pr.rejectors) :: s.stack }
     | .settled _ _ => s
 
 def mkCb (rid : Nat) (b : Br) (f : Option Fn) (q : Nat) : Cb :=
   ⟨rid, b, match f with | some f => .wrap f q | none => .direct q⟩
+
+/-- ghost: some running notification loop still has callbacks of promise `p` waiting -/
+def waiting (p : Nat) (s : State) : Bool :=
+  s.stack.any fun
+    | .notify _ todo => todo.any fun c => s.regs[c.rid]? == some p
+    | _ => false
 
 /-- `p.then(r, j)`: new chained promise, append to both lists, `_notify` prologue. -/
 def thenOp (p : Nat) (r j : Option Fn) (s : State) : State :=
@@ -151,21 +177,22 @@ def thenOp (p : Nat) (r j : Option Fn) (s : State) : State :=
     let rid := s.regs.length
     let rs := pr.resolvers ++ [mkCb rid .res r q]
     let js := pr.rejectors ++ [mkCb rid .rej j q]
-    let heap1 := s.heap ++ [{}]
+    let heap1 := s.heap ++ [{ origin := .chained }]
+    let dur := s.during ++ [waiting p s]
     match pr.st with
     | .pending =>
-      { s with heap := heap1.set p { pr with resolvers := rs, rejectors := js }, regs := s.regs ++ [p] }
+      { s with heap := heap1.set p { pr with resolvers := rs, rejectors := js }, regs := s.regs ++ [p], during := dur }
     | .settled .res v =>
-      { s with heap := heap1.set p { pr with resolvers := [], rejectors := [] }, regs := s.regs ++ [p],
+      { s with heap := heap1.set p { pr with resolvers := [], rejectors := [] }, regs := s.regs ++ [p], during := dur,
                stack := .notify v rs :: s.stack }
     | .settled .rej v =>
-      { s with heap := heap1.set p { pr with resolvers := [], rejectors := [] }, regs := s.regs ++ [p],
+      { s with heap := heap1.set p { pr with resolvers := [], rejectors := [] }, regs := s.regs ++ [p], during := dur,
                stack := .notify v js :: s.stack }
 
 /-- `wrapper` after the function returned `r`: adopt a returned promise, else resolve the chained one. -/
 def finish (r : Val) (q : Nat) (s : State) : State :=
   match r with
-  | .prom p => thenOp p (some (.bind .res q)) (some (.bind .rej q)) s
+  | .prom p => thenOp p (some (.adopt .res q)) (some (.adopt .rej q)) (emit (.adopt q p s.regs.length) s)
   | v => settle .res q v s
 
 /-- Call a wrapped function. Non-script functions run to their return inside this step except for the
@@ -173,25 +200,26 @@ nested `do_resolve`/`do_reject`, whose notification runs (frame on top) before t
 def callFn (f : Fn) (q : Nat) (v : Val) (s : State) : State :=
   match f with
   | .script id acts out => push (.script v acts (.wrapper out q)) (emit (.call id v) s)
-  | .bind b p => settle b p v (push (.finish v q) s)
+  | .bind b p => settle b p v (push (.finish v q) (emit (.direct p) s))
+  | .adopt b p => settle b p v (push (.finish v q) s)
   | .allThen a i =>
-    match s.alls[a]? with
+    match s.colls[a]? with
     | none => s
     | some r =>
       let results := r.results.set i v
       let nd := r.numDone + 1
-      let s1 := push (.finish .none q) { s with alls := s.alls.set a { r with results := results, numDone := nd } }
+      let s1 := push (.finish .none q) { s with colls := s.colls.set a { r with results := results, numDone := nd } }
       if nd = results.length then settle .res r.target (.list results) s1 else s1
   | .allFail a =>
-    match s.alls[a]? with
+    match s.colls[a]? with
     | none => s
     | some r => settle .rej r.target v (push (.finish .none q) s)
-  | .waitDone w =>
-    match s.waits[w]? with
+  | .waitDone a =>
+    match s.colls[a]? with
     | none => s
     | some r =>
       let nd := r.numDone + 1
-      let s1 := push (.finish .none q) { s with waits := s.waits.set w { r with numDone := nd } }
+      let s1 := push (.finish .none q) { s with colls := s.colls.set a { r with numDone := nd } }
       if nd = r.subs.length then settle .res r.target (.list (r.subs.map .prom)) s1 else s1
 
 /-- Body of one callback invocation (after the ghost `invoke` event). -/
@@ -205,26 +233,27 @@ def invoke (c : Cb) (v : Val) (s : State) : State :=
 
 def refsOk (ps : List Nat) (s : State) : Bool := ps.all (· < s.heap.length)
 
+/-- `Promise.all(ps)` / `wait_promises(ps)` up to the start of the loop (and the empty special case). -/
+def collect (m : Mode) (ps : List Nat) (s : State) : State :=
+  if refsOk ps s then
+    let t := s.heap.length
+    let a := s.colls.length
+    let results := match m with | .all => List.replicate ps.length Val.none | .wait => []
+    let s1 := { newProm (.coll a) s with
+                colls := s.colls ++ [{ mode := m, target := t, subs := ps, results := results, numDone := 0 }] }
+    if ps.isEmpty then settle .res t (.list []) s1 else push (.loop m a 0 ps) s1
+  else emit .badRef s
+
 /-- One statement. `arg` is the argument of the enclosing user function. -/
 def act (arg : Val) (a : Act) (s : State) : State :=
   match a with
   | .then_ p r j => thenOp p r j s
-  | .settle b p v => if p < s.heap.length then settle b p v s else emit .badRef s
-  | .settleArg b p => if p < s.heap.length then settle b p arg s else emit .badRef s
-  | .new => newProm s
-  | .newf acts out => push (.script .none acts (.ctor out s.heap.length)) (newProm s)
-  | .all ps =>
-    if refsOk ps s then
-      let t := s.heap.length
-      let s1 := { newProm s with alls := s.alls ++ [{ target := t, results := List.replicate ps.length .none, numDone := 0 }] }
-      if ps.isEmpty then settle .res t (.list []) s1 else push (.allLoop s.alls.length 0 ps) s1
-    else emit .badRef s
-  | .wait ps =>
-    if refsOk ps s then
-      let t := s.heap.length
-      let s1 := { newProm s with waits := s.waits ++ [{ target := t, subs := ps, numDone := 0 }] }
-      if ps.isEmpty then settle .res t (.list []) s1 else push (.waitLoop s.waits.length ps) s1
-    else emit .badRef s
+  | .settle b p v => if p < s.heap.length then settle b p v (emit (.direct p) s) else emit .badRef s
+  | .settleArg b p => if p < s.heap.length then settle b p arg (emit (.direct p) s) else emit .badRef s
+  | .new => newProm .user s
+  | .newf acts out => push (.script .none acts (.ctor out s.heap.length)) (newProm .user s)
+  | .all ps => collect .all ps s
+  | .wait ps => collect .wait ps s
 
 /-- A script's statements are exhausted. -/
 def kont (arg : Val) (k : Kont) (s : State) : State :=
@@ -235,6 +264,19 @@ def kont (arg : Val) (k : Kont) (s : State) : State :=
   | .wrapper (.raise e) q => settle .rej q (.err e) s
   | .ctor (.raise e) p => settle .rej p (.err e) s
   | .ctor _ _ => s
+
+/-- ghost: remember the number of the `then()` call the loop is about to make -/
+def note (a : Nat) (s : State) : State :=
+  match s.colls[a]? with
+  | none => s
+  | some r => { s with colls := s.colls.set a { r with rids := r.rids ++ [s.regs.length] } }
+
+/-- the two callbacks the loop registers on input number `i` -/
+def loopFn (m : Mode) (a i : Nat) (b : Br) : Fn :=
+  match m, b with
+  | .all, .res => .allThen a i
+  | .all, .rej => .allFail a
+  | .wait, _ => .waitDone a
 
 /-- One small step of the innermost frame; `none` when nothing is running. -/
 def step (s : State) : Option State :=
@@ -248,12 +290,9 @@ def step (s : State) : Option State :=
     | .finish r q => some (finish r q s0)
     | .script arg [] k => some (kont arg k s0)
     | .script arg (a :: acts) k => some (act arg a (push (.script arg acts k) s0))
-    | .allLoop _ _ [] => some s0
-    | .allLoop a i (p :: ps) =>
-      some (thenOp p (some (.allThen a i)) (some (.allFail a)) (push (.allLoop a (i + 1) ps) s0))
-    | .waitLoop _ [] => some s0
-    | .waitLoop w (p :: ps) =>
-      some (thenOp p (some (.waitDone w)) (some (.waitDone w)) (push (.waitLoop w ps) s0))
+    | .loop _ _ _ [] => some s0
+    | .loop m a i (p :: ps) =>
+      some (thenOp p (some (loopFn m a i .res)) (some (loopFn m a i .rej)) (push (.loop m a (i + 1) ps) (note a s0)))
 
 /-- Run until nothing is running (or the fuel is gone). -/
 def run : Nat → State → State
